@@ -39,7 +39,7 @@ type opRec struct {
 	failed bool
 }
 
-var c13Kinds = []string{"append", "join", "joinbad", "values", "heads", "rawheads", "getentries", "get", "has", "len", "snapshot", "jsonlog", "tostring", "iterator", "iterstream", "tomultihash", "setidentity"}
+var c13Kinds = []string{"append", "join", "joinbad", "values", "heads", "rawheads", "getentries", "get", "has", "len", "snapshot", "jsonlog", "tostring", "iterator", "iterstream", "iterbounds", "tomultihash", "setidentity"}
 
 var c13Points = map[string][]string{
 	"append":      {"append.enter", "append.locked", "append.created", "append.indexed", "append.exit"},
@@ -51,6 +51,7 @@ var c13Points = map[string][]string{
 	"rawheads":    {"rawheads.enter"},
 	"getentries":  {"getentries.enter"},
 	"iterator":    {"iterator.locked", "iterator.unlocked"},
+	"iterbounds":  {"iterator.locked", "iterator.unlocked"},
 	"setidentity": {"setidentity.locked"},
 	"tomultihash": {"tomultihash.enter", "tomultihash.checked"},
 }
@@ -437,6 +438,42 @@ func (s *scene) do(run *evid.Run, g int, kind string, rng *rand.Rand, exact bool
 		}
 		set := s.checkSeq(run, "Iterator", v, true, wit)
 		s.monotone(run, g, "Iterator", set, wit)
+	case "iterbounds":
+		// iterations with bounds taken from what the log currently holds (oldest / middle / newest entry), and one
+		// with a bound nobody holds: whatever they return, they must end, close the channel on success and
+		// leave the log usable
+		vs := L.Values().Slice()
+		var opts []*iface.IteratorOptions
+		if len(vs) > 0 {
+			old, mid, nw := vs[0].GetHash(), vs[len(vs)/2].GetHash(), vs[len(vs)-1].GetHash()
+			opts = append(opts, &iface.IteratorOptions{LTE: []cid.Cid{mid}}, &iface.IteratorOptions{LT: []cid.Cid{old}},
+				&iface.IteratorOptions{GTE: old, LTE: []cid.Cid{nw}}, &iface.IteratorOptions{GT: mid, LT: []cid.Cid{nw}})
+		}
+		opts = append(opts, &iface.IteratorOptions{LT: []cid.Cid{foreignCid("nobody-holds-this")}})
+		o := opts[rng.Intn(len(opts))]
+		ch := make(chan iface.IPFSLogEntry, 8192)
+		err := L.Iterator(o, ch)
+		r.Ret = s.tick()
+		if err == nil {
+			seen := map[string]bool{}
+			closed := false
+			for !closed {
+				select {
+				case e, ok := <-ch:
+					if !ok {
+						closed = true
+					} else if e != nil {
+						if seen[e.GetHash().String()] {
+							run.Violate("C13/iterator-duplicate", det(), wit(), "bounded Iterator emitted %s twice during concurrent use", hx.Short(e.GetHash().String()))
+						}
+						seen[e.GetHash().String()] = true
+					}
+				default:
+					run.Violate("C13/iterator-not-closed", det(), wit(), "bounded Iterator returned without closing its channel")
+					closed = true
+				}
+			}
+		}
 	case "iterstream":
 		// entries are handed over one by one through an unbuffered channel; after the first one the
 		// consumer (this goroutine) writes to the same log and then keeps receiving
